@@ -10,6 +10,12 @@ PREFIXES = ('stdout_stream.', 'stderr_stream.', 'hooks.', 'rlimit_')
 
 
 def declare(spec):
+    _declare(spec)
+    declare_set(spec)
+    declare_add(spec)
+
+
+def _declare(spec):
     spec.add(Contract('resource:__getattr__', params={'name': STR}, ret=VAL, trusted=True, modifies=[],
                       raises={'AttributeError': []},
                       note='T-STDLIB getattr(resource, name[, default])'))
@@ -79,3 +85,133 @@ def declare(spec):
                                   "forall(INT, lambda j: implies(0 <= j and j < loop_i, "
                                   "validopt(loop_keys[j], obj_get(obj_get(props, 'options'), loop_keys[j]))))"],
                        fingerprint="for:props['options'].items()", modifies=[])}))
+
+
+OPT_FIELDS = ['Watcher.numprocesses', 'Watcher.warmup_delay', 'Watcher.working_dir', 'Watcher.uid', 'Watcher.gid',
+              'Watcher.send_hup', 'Watcher.stop_signal', 'Watcher.stop_children', 'Watcher.shell', 'Watcher.env',
+              'Watcher.cmd', 'Watcher.args', 'Watcher.graceful_timeout', 'Watcher.max_age', 'Watcher.max_age_variance',
+              'Watcher._options']
+OPT_SAME = 'same_field(%s)' % ', '.join(repr(f) for f in OPT_FIELDS)
+
+
+def declare_set(spec):
+    """C11: Watcher.set_opt and Set.execute -- what a refused `set` leaves behind."""
+    spec.classes['Watcher'].fields['_options'] = Dict(STR, VAL)
+    for nm in ('to_uid', 'to_gid'):
+        spec.add(Contract('circus.util:%s' % nm, params={'name': VAL}, ret=INT, trusted=True, modifies=[],
+                          raises={'ValueError': [], 'TypeError': []},
+                          note='T-STDLIB pwd/grp lookup: the id, or ValueError for an unknown user / group'))
+    spec.add(Contract('circus.util:to_bool', params={'s': VAL}, ret=BOOL, trusted=True, modifies=[],
+                      ensures=['implies(is_bool(s), result == as_bool(s))', 'implies(is_none(s), not result)'],
+                      raises={'ValueError': ['is_str(s)'], 'AttributeError': ['not is_str(s) and not is_bool(s) and not is_none(s)']},
+                      note='to_bool: bool as is, None -> False, yes/true/on/1 | no/false/off/0 (any case), else ValueError'))
+    spec.add(Contract('circus.watcher:Watcher._reload_stream', params={'key': STR, 'val': VAL}, ret=INT, trusted=True,
+                      modifies=['self.stdout_stream', 'self.stderr_stream', 'self.stream_redirector', '$val', 'new:Redirector'],
+                      ensures=['result == 0 or result == 1'], raises={'*': []},
+                      note='not under contract: rebuilds the stream object of one channel (may fail half-way)'))
+    spec.add(Contract('circus.watcher:Watcher._reload_hook', params={'key': STR, 'hook': VAL, 'ignore_error': BOOL},
+                      trusted=True, modifies=['self.hooks', 'self.ignore_hook_failure'], raises={'*': []},
+                      note='not under contract: imports and registers the hook callable'))
+    SIMPLE = ("(not prefix_of('stdout_stream', key) and not prefix_of('stderr_stream', key) and not prefix_of('hooks', key))")
+    spec.add(Contract(
+        'circus.watcher:Watcher.set_opt', params={'key': STR, 'val': VAL}, ret=INT,
+        requires=['not isnull(self.arbiter)'],
+        ensures=[
+            '0 - 1 <= result and result <= 1',
+            ('numprocesses-clamped', "implies(key == 'numprocesses' and not (key in old(self._options)), self.numprocesses >= 0)"),
+            ('singleton-kept', "implies(key == 'numprocesses' and not (key in old(self._options)) and self.singleton, "
+                               "self.numprocesses <= 1)"),
+            # exactly the addressed option changes
+            ('only-the-addressed-option',
+             "implies(%s and not (key in old(self._options)), " % SIMPLE +
+             ' and '.join("implies(key != %r, same_field('Watcher.%s'))" % (k, k) for k in
+                          ('numprocesses', 'warmup_delay', 'working_dir', 'uid', 'gid', 'send_hup', 'stop_signal',
+                           'stop_children', 'shell', 'env', 'cmd', 'args', 'graceful_timeout', 'max_age',
+                           'max_age_variance')) + " and same_field('Watcher._options'))"),
+        ],
+        # a refused option (other than the stream / hook families, whose helpers are not under contract) changed nothing
+        raises={'ValueError': ['implies(%s, %s)' % (SIMPLE, OPT_SAME), 'evlog == old(evlog)'],
+                'TypeError': ['implies(%s, %s)' % (SIMPLE, OPT_SAME), 'evlog == old(evlog)'],
+                'AttributeError': ['implies(%s, %s)' % (SIMPLE, OPT_SAME)],
+                '*': ['not %s' % SIMPLE]},
+        modifies=['self.numprocesses', 'self.warmup_delay', 'self.working_dir', 'self.uid', 'self.gid', 'self.send_hup',
+                  'self.stop_signal', 'self.stop_children', 'self.shell', 'self.env', 'self.cmd', 'self.args',
+                  'self.graceful_timeout', 'self.max_age', 'self.max_age_variance', 'self._options', 'self.hooks',
+                  'self.ignore_hook_failure', 'self.stdout_stream', 'self.stderr_stream', 'self.stream_redirector',
+                  'evlog', 'clock', '$val', 'new:Redirector']))
+
+    # ---- Set.execute: options are applied one by one, in the order of the request object
+    W = "arbiter._watchers_names[lower(as_str(old(obj_get(props, 'name'))))]"
+    BUSY = "(arbiter._restarting or not is_none(arbiter._exclusive_running_command))"
+    LOOPMODS = ['Watcher.' + f.split('.')[1] for f in OPT_FIELDS] + [
+        'Watcher.hooks', 'Watcher.ignore_hook_failure', 'Watcher.stdout_stream', 'Watcher.stderr_stream',
+        'Watcher.stream_redirector', 'evlog', 'clock', '$val', 'new:Redirector']
+    KEEP = ["same_field('Arbiter._watchers_names', 'Arbiter._restarting', 'Arbiter._exclusive_running_command', "
+            "'Watcher.arbiter', 'Watcher.singleton')",
+            'not isnull(watcher)', 'watcher.arbiter == arbiter',
+            # nothing is applied while the slot is busy: every set_opt would have been refused
+            'implies(%s, %s)' % (BUSY, OPT_SAME)]
+    spec.add(Contract('circus.watcher:Watcher.do_action', kind='coroutine', params={'num': INT}, trusted=True,
+                      requires=[], modifies=['*'], raises={'*': []},
+                      note='do_action: manage_processes or _reload, through @synchronized (verified under C01/C10)'))
+    spec.add(Contract(
+        'circus.commands.set:Set.execute', params={'arbiter': Ref('Arbiter'), 'props': VAL}, ret=VAL,
+        requires=['not isnull(arbiter)', 'is_obj(props)', "obj_has(props, 'name')", "obj_has(props, 'options')",
+                  "is_obj(obj_get(props, 'options'))",
+                  "forall(STR, lambda n: implies(n in arbiter._watchers_names, not isnull(arbiter._watchers_names[n]) and "
+                  "arbiter._watchers_names[n].arbiter == arbiter))",
+                  "forall(STR, lambda k: implies(obj_has(obj_get(props, 'options'), k), "
+                  "validopt(k, obj_get(obj_get(props, 'options'), k))))"],
+        ensures=[],
+        # C11: a set request that is refused must not have applied anything
+        raises={'MessageError': [OPT_SAME], 'ConflictError': [OPT_SAME], '*': [OPT_SAME]},
+        modifies=['*'],
+        loops={0: Loop(invariant=["is_obj(props)"] + KEEP, fingerprint="for:props.get('options', {}).items()",
+                       modifies=LOOPMODS),
+               1: Loop(invariant=["is_obj(props)", "is_obj(val)"] + KEEP, fingerprint='for:val.items()', modifies=LOOPMODS)}))
+
+
+def declare_add(spec):
+    """C11: AddWatcher.execute -- the endpoint-owner check and the duplicate-name refusal come before any effect."""
+    spec.classes['CtlHandle'].fields['endpoint_owner_mode'] = BOOL
+    spec.classes['Arbiter'].fields['endpoint_owner'] = VAL
+    spec.add(Contract('circus.arbiter:Arbiter.endpoint_owner_mode', kind='property', ret=BOOL,
+                      requires=['not isnull(self.ctrl)'], ensures=['result == self.ctrl.endpoint_owner_mode'],
+                      modifies=[], inline='self.ctrl.endpoint_owner_mode'))
+    spec.add(Contract('circus.config:rlimit_value', params={'val': VAL}, ret=INT, trusted=True, modifies=[],
+                      raises={'ValueError': [], 'TypeError': []}, note='rlimit_value: RLIM_INFINITY for None/empty, else int(val)'))
+    st = Contract('circus.watcher:Watcher.start', kind='coroutine', trusted=True, modifies=['*'], raises={'*': []},
+                  note='Watcher.start (synchronized coroutine): _start, verified under C14/C19')
+    st.detached = Contract('circus.watcher:Watcher.start', requires=[], modifies=['*'],
+                           ensures=["same_field('Arbiter.watchers', 'Arbiter._watchers_names')"])
+    spec.add(st)
+    SAMEDIR = "same_field('Arbiter.watchers', 'Arbiter._watchers_names')"
+    NAME = "lower(as_str(old(obj_get(props, 'name'))))"
+    spec.add(Contract(
+        'circus.commands.addwatcher:AddWatcher.execute', params={'arbiter': Ref('Arbiter'), 'props': VAL}, ret=VAL,
+        requires=['not isnull(arbiter)', 'not isnull(arbiter.ctrl)', 'is_obj(props)', "obj_has(props, 'name')",
+                  "obj_has(props, 'cmd')", 'dir_wf(arbiter)',
+                  "implies(obj_has(props, 'options'), is_obj(obj_get(props, 'options')) and "
+                  "obj_get(props, 'options') != props)"],      # JSON documents are trees (A-JSONTREE)
+        ensures=[('added', "is_str(old(obj_get(props, 'name'))) and (%s in arbiter._watchers_names)" % NAME),
+                 ('was-new', "not (%s in old(arbiter._watchers_names))" % NAME),
+                 ('owner-checked', "implies(old(arbiter.ctrl.endpoint_owner_mode), old(ite(obj_has(props, 'options') and "
+                  "obj_has(obj_get(props, 'options'), 'uid'), obj_get(obj_get(props, 'options'), 'uid'), vnone())) == "
+                  "old(arbiter.endpoint_owner))")],
+        raises={'MessageError': [SAMEDIR, 'old(arbiter.ctrl.endpoint_owner_mode)'],
+                'AlreadyExist': [SAMEDIR, "%s in old(arbiter._watchers_names)" % NAME],
+                'ConflictError': [SAMEDIR],
+                '*': ['dir1(arbiter)', 'dir2(arbiter)', 'dir3(arbiter)', 'dir4(arbiter)']},
+        modifies=['*'], local_types={'rlimits': Dict(STR, INT)},
+        loops={0: Loop(invariant=['is_obj(options)', SAMEDIR, "is_obj(props) and obj_has(props, 'name') and obj_has(props, 'cmd') and obj_get(props, 'name') == old(obj_get(props, 'name')) and "
+                                  "obj_get(props, 'cmd') == old(obj_get(props, 'cmd')) and options != props and obj_has(props, 'args') == old(obj_has(props, 'args')) and "
+                                  "obj_has(props, 'start') == old(obj_has(props, 'start'))",
+                                  "same_field('Arbiter.ctrl', 'Arbiter.endpoint_owner', 'CtlHandle.endpoint_owner_mode', "
+                                  "'Watcher.name')"],
+                       fingerprint='for:options.items()', modifies=[]),
+               1: Loop(invariant=['is_obj(options)', SAMEDIR, "is_obj(props) and obj_has(props, 'name') and obj_has(props, 'cmd') and obj_get(props, 'name') == old(obj_get(props, 'name')) and "
+                                  "obj_get(props, 'cmd') == old(obj_get(props, 'cmd')) and options != props and obj_has(props, 'args') == old(obj_has(props, 'args')) and "
+                                  "obj_has(props, 'start') == old(obj_has(props, 'start'))",
+                                  "same_field('Arbiter.ctrl', 'Arbiter.endpoint_owner', 'CtlHandle.endpoint_owner_mode', "
+                                  "'Watcher.name')"],
+                       fingerprint='for:rlimits.keys()', modifies=['$val'])}))
